@@ -586,10 +586,21 @@ class ChangePoint(CovarianceFunction):
 
         for i in range(self.n_kernels - 1):
             w = w_vals[i]
+            # kernel i is also weighted by the previous change-point, and
+            # kernel i+1 by the next one, where those change-points exist
+            c1, c2 = 1.0, 1.0
+            if i > 0:
+                w_prev = w_vals[i - 1]
+                c1 = w_prev[:, None] * w_prev[None, :]
+            if i < self.n_kernels - 2:
+                w_next = 1 - w_vals[i + 1]
+                c2 = w_next[:, None] * w_next[None, :]
             for dw in w_grads[i]:
                 A = -dw[:, None] * (1 - w)[None, :]
                 B = dw[:, None] * w[None, :]
-                gradients.append(K_vals[i] * (A + A.T) + K_vals[i + 1] * (B + B.T))
+                gradients.append(
+                    K_vals[i] * (A + A.T) * c1 + K_vals[i + 1] * (B + B.T) * c2
+                )
         return covar, gradients
 
     @staticmethod
